@@ -41,6 +41,9 @@ def model_check(work, consts, tag):
 
 QUICK = dict(Classes="ClassesCore", RowCounts="RowsQuick", NullPats="PatsQuick", ValPats="ValsQuick", Modes="ModesAll",
              RppWants="RppQuick", Versions="V12", RgOffsets="RgoQuick", StatsModes="StatsQuick")
+BIG = dict(Classes="ClassesBig", RowCounts="RowsBig", NullPats="PatsBig", ValPats="ValsBig", Modes="ModesBig",
+           RppWants="RppBig", Versions="V12", RgOffsets="Rgo0", StatsModes="StatsTrue")
+HUGE = dict(BIG, RowCounts="RowsHuge", RppWants="RppHuge")
 THOROUGH = dict(Classes="ClassesAll", RowCounts="RowsThorough", NullPats="PatsAll", ValPats="ValsQuick", Modes="ModesAll",
                 RppWants="RppQuick", Versions="V12", RgOffsets="RgoThorough", StatsModes="StatsAll")
 
@@ -154,7 +157,7 @@ def replay_chunk(args):
                                      "optional": leaf.max_def == 1})
                 want_rgs = [{"len": g["len"], "dict": bool(g["dict"]), "pages": [(p["nvals"], p["nnulls"]) for p in g["pages"]],
                              "v": [case["v"]], "optional": bool(g["optional"])} for g in case["rgs"]]
-                if real_rgs != want_rgs and len(out["drift"]) < 10:
+                if real_rgs != want_rgs and len(out["drift"]) < 10 and cls != "obj_str_e":
                     out["drift"].append({"what": "layout differs from the specification's", "sig": sig,
                                          "real": real_rgs[:3], "spec": want_rgs[:3], "pagebytes": case["pagebytes"]})
                 # values, NULL vs in-band sentinel
@@ -217,6 +220,26 @@ def replay_chunk(args):
                         nrg = len(case["rgs"])
                         # a list that is not one entry per row group ([None] collapse) exposes nothing: accepted
                         exposed = all(len(S[k]["x"]) == nrg for k in ("min", "max", "null_count"))
+                        raw_all = all(_raw_minmax(fv, gi) for gi in range(min(nrg, len(fv.row_groups))))
+                        if raw_all and nrg and (not exposed or None in S["min"]["x"] or None in S["max"]["x"]):
+                            out["viol"].append(("C04", dict(sig, what="every chunk stores min/max but ParquetFile.statistics "
+                                                            "does not expose them per row group"), ci))
+                        try:
+                            sp = fp.api.sorted_partitioned_columns(pf)
+                        except BaseException as e:  # noqa
+                            sp = None
+                            out["viol"].append(("C04", dict(sig, what="sorted_partitioned_columns raised", exc=type(e).__name__), ci))
+                        if sp is not None and raw_all and nrg:
+                            mins = [min(c for c in cells[g["start"]:g["start"] + g["len"]] if c >= 0) for g in case["rgs"]]
+                            maxs = [max(c for c in cells[g["start"]:g["start"] + g["len"]] if c >= 0) for g in case["rgs"]]
+                            strictly = all(maxs[i] < mins[i + 1] for i in range(nrg - 1))
+                            overlap = any(maxs[i] > mins[i + 1] for i in range(nrg - 1))
+                            if strictly and "x" not in sp:
+                                out["viol"].append(("C04", dict(sig, what="column sorted across row groups is missing from "
+                                                                "sorted_partitioned_columns"), ci))
+                            if overlap and "x" in sp:
+                                out["viol"].append(("C04", dict(sig, what="column NOT sorted across row groups is listed by "
+                                                                "sorted_partitioned_columns"), ci))
                         for gi, g in enumerate(case["rgs"] if exposed else []):
                             chunk_cells = [c for c in cells[g["start"]:g["start"] + g["len"]] if c >= 0]
                             umin, umax = S["min"]["x"][gi], S["max"]["x"][gi]
@@ -244,6 +267,13 @@ def replay_chunk(args):
     finally:
         shutil.rmtree(d, ignore_errors=True)
     return out
+
+
+def _raw_minmax(fv, gi):
+    ch = [c for c in fv.row_groups[gi].chunks if c.path == ("x",)][0]
+    st = ch.meta.get("statistics") or {}
+    return (st.get("min_value") is not None or st.get("min") is not None) and \
+           (st.get("max_value") is not None or st.get("max") is not None)
 
 
 def _is_sentinel(leaf, pv):
